@@ -24,7 +24,8 @@ class H(Harness):
     THOROUGH_N = 5000
     RULE = ('random ScriptProcess tables (1-2 processes in a sequence, 1-3 loci, per-element and fixed-rate events with dyadic '
             'probabilities incl. 0, handler programs that post (also zero-delay and earlier-than-queued), post repeating, un-post, query and '
-            'mutate loci), both dynamics, scripted random source; non-trivial = at least 3 events fired of at least 2 kinds '
+            'mutate loci), both dynamics, scripted random source; D binds every posted handler to a queued (time, program, element) and, '
+            'under synchronous dynamics, TIMESTEPS_WITH_EVENTS to the number of steps with an executed event; non-trivial = at least 3 events fired of at least 2 kinds '
             '(posted / per-element / fixed); distinct by the full (table, dynamics, seed)')
     TRUSTED = ['Coq 8.16.1 kernel incl. vm_compute', 'harness/kscript.py (table interpreter over the public Process API), harness/kcommon.py, vlib/oracle.py',
                'heapq modelled as "pop returns the minimum under (time, id)"', 'binary64 times compared with the exact rational model up to 1e-9 relative']
@@ -66,17 +67,31 @@ class H(Harness):
         if obs['exception']:
             return [{'signature': 'run-raised', 'detail': obs['exception']}]
         seq = obs['obs']
-        posted_times = set()
-        for o in seq:
-            if o[0] == 'posted':
-                posted_times.add(o[2])
-            elif o[0] == 'postedrep':
-                posted_times.update(rep_times(o[1], o[2], (obs['time'] or 0) + 1))
+        # "for a posted event exactly the time it was posted for": the events that are queued, each with ITS OWN time,
+        # handler program and element.  A posted handler must be one of them and uses it up; among queued events that are
+        # identical in all three (only an un-post or the interval of a repetition can tell them apart later) it is taken to
+        # be the one queued first, which is the order the queue promises for equal times.
+        live = {}           # sequence number of queueing -> (time, prog, element, interval of a repeating event | None, id | None)
+        nseq = [0]
+        repost = None       # the repetition to queue again when the tap of the current posted handler arrives
+
+        def queue(*x):
+            live[nseq[0]] = x
+            nseq[0] += 1
         cur = None
         last_h = -math.inf
         last_tap = -math.inf
         ntap = 0
         for o in seq:
+            if o[0] == 'posted':
+                queue(o[2], o[3], o[4], None, o[1])
+            elif o[0] == 'postedrep':
+                queue(o[1], o[3], o[4], o[2], None)
+            elif o[0] == 'posted-into-past-accepted' and len(o) >= 3:
+                queue(o[1], 0, o[2], None, None)
+            elif o[0] == 'unpost' and o[2] is not None and o[2] != 'KeyError':
+                for q in [q for q, x in live.items() if x[4] == o[1]]:
+                    del live[q]
             if o[0] == 'handler':
                 if cur is not None:
                     v.append({'signature': 'handler-without-tap', 'detail': cur})
@@ -85,8 +100,18 @@ class H(Harness):
                 if targ != clk:
                     v.append({'signature': 'clock-differs-from-handler-time:' + ('posted' if member is None else 'stochastic'),
                               'detail': {'handler_time': targ, 'clock': clk, 'obs': o}})
-                if member is None and targ not in posted_times:
-                    v.append({'signature': 'posted-event-not-at-its-time', 'detail': o})
+                if member is None:
+                    repost = None
+                    key = (targ, prog, e)
+                    cands = sorted(q for q, x in live.items() if x[:3] == key)
+                    if cands:
+                        x = live.pop(cands[0])
+                        if x[3] is not None:
+                            repost = (targ + x[3], prog, e, x[3], None)
+                    else:
+                        v.append({'signature': 'posted-event-not-at-its-time',
+                                  'detail': {'handler': o, 'queued_for_this_program_and_element':
+                                             sorted(x[0] for x in live.values() if (x[1], x[2]) == (prog, e))[:6]}})
                 if targ < last_h:
                     v.append({'signature': 'time-ran-backwards', 'detail': {'prev': last_h, 'now': targ}})
                 last_h = max(last_h, targ)
@@ -103,6 +128,9 @@ class H(Harness):
                 last_tap = max(last_tap, o[1])
                 if obs['time'] is not None and o[1] > obs['time']:
                     v.append({'signature': 'event-after-end-time', 'detail': {'tap': o, 'TIME': obs['time']}})
+                if repost is not None and cur is not None and cur[5] is None:
+                    queue(*repost)              # postRepeatingEvent queues the next repetition after the handler returns
+                    repost = None
                 cur = None
         if cur is not None:
             v.append({'signature': 'handler-without-tap', 'detail': cur})
@@ -112,6 +140,29 @@ class H(Harness):
             exp = float(max(1, math.ceil(case['table']['maxtime'])))
             if obs['time'] != exp:
                 v.append({'signature': 'sync-end-time', 'detail': {'TIME': obs['time'], 'expected': exp}})
+            # TIMESTEPS_WITH_EVENTS: the number of steps in which at least one event (posted, per-element or fixed-rate) was
+            # executed.  A step = the posted events fired by its runPendingEvents, then its tranche; the harness notes where
+            # in the stream each tranche was drawn (after the step's posted events, before its first tranche handler).
+            cuts = [tr['obs_index'] for tr in obs.get('tranches', [])]
+            per_step = [0] * (len(cuts) + 1)        # the last slot: posted events after the last tranche (there is no such step)
+            posted_kind = None
+            for idx, o in enumerate(seq):
+                if o[0] == 'handler':
+                    posted_kind = o[5] is None
+                elif o[0] == 'tap' and posted_kind is not None:
+                    drawn = sum(1 for c in cuts if c <= idx)        # tranches drawn before this tap
+                    # a posted event belongs to the step whose tranche is drawn next, a tranche event to the one drawn last
+                    step = drawn if posted_kind else drawn - 1
+                    if step < 0:
+                        v.append({'signature': 'tranche-event-before-the-first-step', 'detail': o})
+                    else:
+                        per_step[step] += 1
+                    posted_kind = None
+            exp_steps = sum(1 for n in per_step if n > 0)
+            if obs.get('steps') != exp_steps:
+                v.append({'signature': 'timesteps-with-events-mismatch',
+                          'detail': {'TIMESTEPS_WITH_EVENTS': obs.get('steps'), 'steps_with_an_executed_event': exp_steps,
+                                     'executed_events_per_step': per_step[:-1], 'after_last_step': per_step[-1]}})
         # de-duplicate by signature, keep the first of each
         seen = {}
         for x in v:
